@@ -87,6 +87,11 @@ def _glue(chk, rng):
                     "ev": G.glue_events(rng, "nuts", "dict", ("b",), n=4)})
     chk.tv("Trace_Glue.tla", evs, tag="hmc_start_state",
            keyfn=lambda r: f"glue:{r.trace['hdr']['kernel']}:{r.conjunct}")
+    # the built-in Gibbs kernel reads everything it needs from the state it is handed (the hyper-parameters and the
+    # penalty are changed in the state after the kernel was built); shared with C13
+    from harness import gibbs_driver
+    gt = [{"hdr": {"kind": "tau2", "d": 3, "order": 1, "nontrivial": True}, "ev": gibbs_driver.tau2_events(rng, 3, 1, nkeys=3)}]
+    chk.tv("Trace_Gibbs.tla", gt, tag="gibbs_start_state", keyfn=lambda r: f"gibbs:{r.trace['hdr']['kind']}:{r.conjunct}")
 
 
 def replay(chk: Check, data):
